@@ -3,14 +3,14 @@
 From Coq Require Import List Arith ZArith Bool Lia Permutation Wf_nat.
 From MptV Require Import C14.NodeModel C14.NodeSpec C14.NodeRep C14.NodeFocus C14.NodeExec
   C14.NodeLocal C14.NodeInv C14.NodeRefine C14.NodeFree C14.NodeClone C14.NodeInsert C14.NodeInsertName
-  C14.NodeWalk C14.NodeEnd.
+  C14.NodeWalk C14.NodeEnd C14.NodeMove C14.NodeMoveStep.
 Import ListNotations.
 Local Open Scope nat_scope.
 
 (* the operations whose refinement is proved for every state *)
 Definition proved (o : op) : Prop :=
   match o with
-  | ONew _ _ | OAfter _ _ | OBefore _ _ | OAdd _ _ _ _ | OIns _ _ _ _ | OUnlink _
+  | ONew _ _ | OAfter _ _ | OBefore _ _ | OAdd _ _ _ _ | OIns _ _ _ _ | OUnlink _ | OMove _ _ | OLMove _ _
   | OClone _ | OLClone _ | OTClone _ | OClear _ | ODestroy _ | ORelink _ | OTrav _ _ _ | OEnd => True
   | _ => False
   end.
@@ -24,6 +24,8 @@ Proof.
   - destruct byname; [apply step_nadd|apply step_gadd].
   - destruct byname; [apply step_nins|apply step_gins].
   - apply step_unlink.
+  - apply step_move.
+  - apply step_lmove.
   - apply step_clone.
   - apply step_lclone.
   - apply step_tclone.
